@@ -1549,6 +1549,17 @@ class PreviewTree:
         self._all_children_cache[trans_id] = children
         return children
 
+    def _tree_path(self, trans_id, path):
+        """Return the path in the underlying tree of an unchanged trans_id.
+
+        The contents of a file that the transform only moves still live at
+        its old path in the underlying tree, not at its path in the preview.
+        """
+        tree_path = self._transform.tree_path(trans_id)
+        if tree_path is None or trans_id in self._transform._removed_contents:
+            raise NoSuchFile(path)
+        return tree_path
+
     def get_file_with_stat(self, path):
         """Get file content and stat information.
 
@@ -1575,8 +1586,13 @@ class PreviewTree:
         try:
             return self._transform._new_executability[trans_id]
         except KeyError:
+            # Ask the underlying tree about the path the file has *there*,
+            # not about its final path in the preview.
+            tree_path = self._transform.tree_path(trans_id)
+            if tree_path is None:
+                return False
             try:
-                return self._transform._tree.is_executable(path)
+                return self._transform._tree.is_executable(tree_path)
             except FileNotFoundError:
                 return False
             except NoSuchFile:
@@ -1617,7 +1633,7 @@ class PreviewTree:
             raise NoSuchFile(path)
         kind = self._transform._new_contents.get(trans_id)
         if kind is None:
-            return self._transform._tree.get_file_sha1(path)
+            return self._transform._tree.get_file_sha1(self._tree_path(trans_id, path))
         if kind == "file":
             with self.get_file(path) as fileobj:
                 return osutils.sha_file(fileobj)
@@ -1640,7 +1656,9 @@ class PreviewTree:
             raise NoSuchFile(path)
         kind = self._transform._new_contents.get(trans_id)
         if kind is None:
-            return self._transform._tree.get_file_verifier(path)
+            return self._transform._tree.get_file_verifier(
+                self._tree_path(trans_id, path)
+            )
         if kind == "file":
             with self.get_file(path) as fileobj:
                 return ("SHA1", osutils.sha_file(fileobj))
